@@ -22,6 +22,15 @@ def _names(node):
     return {n.id for n in ast.walk(node) if isinstance(n, ast.Name)}
 
 
+def _ancestors(m, node, stop):
+    out = []
+    cur = m.parent(node)
+    while cur is not None and cur is not stop:
+        out.append(cur)
+        cur = m.parent(cur)
+    return out
+
+
 def topoguard(repo):
     res = RuleResult("R-TOPOGUARD")
     m = repo.mod(DC)
@@ -89,6 +98,34 @@ def topoguard(repo):
         elif isinstance(deps_iter, ast.Subscript) and ast.unparse(marks[0].args[0]) != ast.unparse(deps_iter.slice):
             res.add(f"{DC}|{f.name}|mark-key", f"`{placed}` receives `{ast.unparse(marks[0].args[0])}` but dependencies are looked up "
                     f"by `{ast.unparse(deps_iter.slice)}`", DC, a.lineno, f.name)
+    # nothing but the runtime parameters is placed without going through the guard
+    placed_names = set()
+    for a in apps:
+        cur = a
+        while cur is not f.node:
+            par = m.parent(cur)
+            if isinstance(par, ast.If) and isinstance(par.test, ast.Call) and call_name(par.test) == "all" and par.test.args \
+                    and isinstance(par.test.args[0], ast.GeneratorExp):
+                e = par.test.args[0].elt
+                if isinstance(e, ast.Compare) and isinstance(e.comparators[0], ast.Name):
+                    placed_names.add((e.comparators[0].id, par))
+            cur = par
+    for placed, guard_if in placed_names:
+        for n in walk_no_nested_funcs(f.node):
+            grows = (isinstance(n, ast.Call) and isinstance(n.func, ast.Attribute) and n.func.attr in ("add", "update")
+                     and isinstance(n.func.value, ast.Name) and n.func.value.id == placed) or \
+                    (isinstance(n, ast.AugAssign) and isinstance(n.target, ast.Name) and n.target.id == placed)
+            if not grows:
+                continue
+            res.instances += 1
+            if any(n is x for x in ast.walk(guard_if)):
+                continue
+            loops_ = [p_ for p_ in _ancestors(m, n, f.node) if isinstance(p_, ast.For)]
+            if any(ast.unparse(l.iter).endswith("runtime_parameter") for l in loops_):
+                continue
+            res.add(f"{DC}|{f.name}|pre-placed", f"`{ast.unparse(n)[:90]}` marks something as placed outside the dependency test "
+                    "(only runtime parameters may be pre-placed): fields that depend on it, directly or through a virtual field, are "
+                    "emitted before the fields they are computed from", DC, n.lineno, f.name)
     # completeness assertion and candidate list
     res.instances += 2
     asserts = [n for n in walk_no_nested_funcs(f.node) if isinstance(n, ast.Assert) and order in _names(n.test) and "len" in ast.unparse(n.test)]
